@@ -381,3 +381,12 @@ def run_peaks(case, out):
     out.check(bool(np.all(df["class"].to_numpy() == 1)), "peaks:class", "")
     out.check(df["subtomo_id"].to_numpy(dtype=float).tolist() == [float(i) for i in range(1, len(df) + 1)], "peaks:subtomo_ids", "")
     out.nontrivial = len(v) >= 2 and len(sup) > len(v)
+    if case["seed"] % 3 == 0 and not out.violations and case["list_as"] == "array":  # (the list file was rewritten above)
+        # the same request with an output file: the same list, and the file holds it
+        out.label("peaks:output_file")
+        ok5, m5 = call(out, "scores_extract_particles(output_path)", lambda: tmana.scores_extract_particles(
+            s_arg, a_arg, alist, case["tomo_id"], D, object_id=case["object_id"], angles_order=order, angles_numbering=numbering, output_path="peaks.em", **kw))
+        if ok5 and m5 is not None:
+            out.check(m5.df.equals(df), "peaks:result_changes_with_output_path", "")
+            bad = oracle.em_motl_mismatch("peaks.em", df)
+            out.check(bad is None, f"peaks:output_file_{bad}", "")
